@@ -976,7 +976,7 @@ func runDisagree(k *vf.Case) {
 
 func main() {
 	vf.Main("C12", "exploration", func(c *vf.Ctx) {
-		c.Rule = "seeded histories of 1-8 cycles with OTEL_GO_X_CARDINALITY_LIMIT in {unset,0,1,2,3,10,100,-1,-50,abc}, streams of 1-400 distinct two-attribute sets in adversarial orders (all new, repeats around the L-1 boundary, reversed between cycles, random, the literal overflow set used as a normal set), delta and cumulative ManualReaders, sync counter/up-down/histogram/gauge and observable counter/gauge, eight view configurations (none, allow filter, deny filter, rename, re-aggregation incl. drop, two views to different streams, two views to the same stream, two instruments renamed onto one stream); every reported stream is compared point by point with a reference first-seen limiter + ledger; concurrent variant under -race asserting the bound and conserved totals; view configuration 12 (value-dependent filter); disagree family (one reader drops random kinds, the other reports sync adds, instrument callbacks and RegisterCallback observations exactly). distinct = distinct (limit, view configuration, limit crossed, cycles class) signatures"
+		c.Rule = "seeded histories of 1-8 cycles with OTEL_GO_X_CARDINALITY_LIMIT in {unset,0,1,2,3,10,100,-1,-50,abc}, streams of 1-400 distinct two-attribute sets in adversarial orders (all new, repeats around the L-1 boundary, reversed between cycles, random, the literal overflow set used as a normal set), delta and cumulative ManualReaders, sync counter/up-down/histogram/gauge and observable counter/gauge, eight view configurations (none, allow filter, deny filter, rename, re-aggregation incl. drop, two views to different streams, two views to the same stream, two instruments renamed onto one stream); every reported stream is compared point by point with a reference first-seen limiter + ledger; concurrent variant under -race asserting the bound and conserved totals; view configuration 12 (value-dependent filter); disagree family (one reader drops random kinds, the other reports sync adds, instrument callbacks and RegisterCallback observations exactly); filters built from scratch key slices; attribute-filter view in the concurrent variant. distinct = distinct (limit, view configuration, limit crossed, cycles class) signatures"
 		c.Assume = []string{"for asynchronous instruments with delta temporality only the point bound is asserted (the delta baseline is kept per reported identity, which the limiter reassigns between cycles)", "OTEL_GO_X_CARDINALITY_LIMIT is read when an aggregator is created; it is set before instruments are created, one history at a time per process"}
 		otel.SetErrorHandler(otel.ErrorHandlerFunc(func(error) {}))
 		otel.SetLogger(logr.Discard())
